@@ -1,0 +1,24 @@
+//go:build verif
+
+package decoder
+
+// Exported wrappers for the verification harness in /verif (build tag "verif" only).
+// Add-only: nothing here is compiled into normal builds.
+
+import (
+	"github.com/hashicorp/hcl-lang/decoder/internal/schemahelper"
+	"github.com/hashicorp/hcl-lang/schema"
+	"github.com/hashicorp/hcl/v2"
+)
+
+// VerifMergeBlockBodySchemas exposes schemahelper.MergeBlockBodySchemas; the int is the LookupResult.
+func VerifMergeBlockBodySchemas(block *hcl.Block, blockSchema *schema.BlockSchema) (*schema.BodySchema, int) {
+	bs, res := schemahelper.MergeBlockBodySchemas(block, blockSchema)
+	return bs, int(res)
+}
+
+// VerifDependentBodySchema exposes blockSchema.DependentBodySchema.
+func VerifDependentBodySchema(block *hcl.Block, blockSchema *schema.BlockSchema) (*schema.BodySchema, schema.DependencyKeys, int) {
+	bs, dk, res := schemahelper.NewBlockSchema(blockSchema).DependentBodySchema(block)
+	return bs, dk, int(res)
+}
